@@ -42,6 +42,9 @@ func lockSkeleton(rel, recv, name string, extra ...string) string {
 			case callee == "close":
 				items = append(items, "close "+exprText(f.fset, x.Args[0]))
 			default:
+				if strings.ContainsAny(callee, "\n{") {
+					break // a function literal called in place
+				}
 				for _, e := range extra {
 					if strings.Contains(callee, e) {
 						items = append(items, callee)
